@@ -167,6 +167,29 @@ def reported(sol, net):
     return out
 
 
+def port_part(net, a, b):
+    """The deactivated network restricted to what is conductively attached to node a (reference b);
+    None if b is not attached (infinite port impedance)."""
+    conducting = []
+    for br in net['branches']:
+        kind, _ = normalise(br)
+        if kind in ('open', 'I'):
+            continue
+        if kind == 'V':
+            br = {**br, 'kind': 'short'}
+        conducting.append(br)
+    comp, frontier = {a}, [a]
+    while frontier:
+        n = frontier.pop()
+        for br in conducting:
+            for x, y in ((br['n1'], br['n2']), (br['n2'], br['n1'])):
+                if x == n and y not in comp:
+                    comp.add(y); frontier.append(y)
+    if b not in comp:
+        return None
+    return {'ref': b, 'branches': [br for br in conducting if br['n1'] in comp and br['n2'] in comp]}
+
+
 def port_impedance(net, a, b):
     """Exact driving-point impedance between nodes a and b with all sources deactivated.
     Returns (status, Z): status in 'ok' | 'infinite' (no unique solution: port floats)."""
